@@ -49,19 +49,22 @@ StringResult(page, p) == CASE page = "ok" -> [ok |-> TRUE, out |-> "page:ok"]
                            [] page = "ok2" -> [ok |-> TRUE, out |-> "page:ok2"]        \* another page of the same layout
                            [] page = "bare" -> [ok |-> TRUE, out |-> "page:bare"]      \* a page of that layout without any insert
                            [] page = "static" -> [ok |-> TRUE, out |-> "page:static"]  \* text and argument-less components that read the caller's data
-                           [] page \in {"bad", "bad-in-component", "bad-in-layout", "bad-at-start", "bad-in-loop", "bad-in-slot", "bad-in-insert", "bad-in-array", "bad-in-args", "bad-in-object", "bad-in-for-cond", "bad-in-elseif", "bad-in-each-else", "bad-in-for-else", "bad-lt", "bad-in-assign", "nested-use"} ->
+                           [] page \in {"bad", "bad-in-component", "bad-in-layout", "bad-at-start", "bad-in-loop", "bad-in-slot", "bad-in-insert", "bad-in-array", "bad-in-args", "bad-in-object", "bad-in-for-cond", "bad-in-elseif", "bad-in-each-else", "bad-in-for-else", "bad-lt", "bad-in-assign", "bad-in-unused-arg", "bad-in-shadowed-arg", "nested-use"} ->
                                   [ok |-> FALSE, err |-> "runtime error", at |-> p]      \* fails at different points of the render
                            [] page \in NotTemplates -> [ok |-> FALSE, err |-> "template not found", at |-> p]
                            [] page = "errpage" -> [ok |-> TRUE, out |-> "page:custom-error"]
                            [] page \in {"row1", "row2"} -> [ok |-> TRUE, out |-> "page:row"]   \* data: two struct types that share a name
                            [] page \in {"polyS", "polyA", "polyI"} -> [ok |-> TRUE, out |-> "page:poly"]   \* one template, receivers of three types
                            [] page = "okbad" -> [ok |-> FALSE, err |-> "unsupported value in the data", at |-> p]   \* page ok with data that cannot be converted
+                           [] page = "usesfn" -> [ok |-> TRUE, out |-> "page:usesfn"]           \* a page that calls custom functions
                            [] page = "floatdec" -> [ok |-> TRUE, out |-> "page:floatdec"]       \* number literals under ++ / --
                            [] page \in {"lastA", "lastB", "lastC"} -> [ok |-> TRUE, out |-> "page:lastof"]        \* one template, arrays of three lengths
                            [] page \in {"dotS", "dotM"} -> [ok |-> TRUE, out |-> "page:dotcase"]           \* one template, a struct / a map behind the same property names
                            [] page = "setvar" -> [ok |-> TRUE, out |-> "page:setvar"]      \* rendered with nil data, assigns a top-level name
                            [] page = "getvar" -> [ok |-> FALSE, err |-> "identifier not found", at |-> p]   \* nil data, reads that name
-EvalResult(page) == IF page \in {"ok", "setvar", "row1", "row2", "sameprintI", "sameprintS"} THEN [ok |-> TRUE, out |-> "str:" \o page] ELSE [ok |-> FALSE, err |-> "runtime error", at |-> ""]
+\* ("illegal": a source with an illegal character; "chanfn": a custom function whose result cannot be converted - both fail,
+\* and fail alone)
+EvalResult(page) == IF page \in {"ok", "setvar", "row1", "row2", "sameprintI", "sameprintS", "customfn"} THEN [ok |-> TRUE, out |-> "str:" \o page] ELSE [ok |-> FALSE, err |-> "runtime error", at |-> ""]
 \* C17: which body Response writes
 BuiltinBody(c, r) == IF c.debug THEN [page |-> "builtin", shows |-> {r.err, r.at}] ELSE [page |-> "builtin", shows |-> {}]
 ResponseResult(c, r, custom) ==        \* r: result of String(name); custom: result of String(errorPage) or "none"
